@@ -84,8 +84,8 @@ def run(ctx):
                 continue
             seen.add(vals)
             tables.append({"id": len(tables), "kind": "ls", "n": n, "table": [{"c": list(s), "v": v} for s, v in zip(strategies, vals)]})
-    res = pl.run_jobs([("local_search_replay", {"tables": tables[i:i + 200]}) for i in range(0, len(tables), 200)],
-                      nproc=ctx.nproc, timeout=300, chunksize=1)
+    res = pl.run_jobs([("local_search_replay", {"tables": tables[i:i + 100]}) for i in range(0, len(tables), 100)],
+                      nproc=ctx.nproc, timeout=45, chunksize=1)      # the property asserts termination of the local search
     cases = []
     for r in res:
         if r.get("error"):
